@@ -161,6 +161,12 @@ pub fn gen_shape(rng: &mut Rng, allow_panicky: bool) -> ShapeSpec {
     ShapeSpec(rng.below(n as u64) as u8)
 }
 
+thread_local! {
+    /// File-backed image options are generated only while this is set (C14's generator sets it:
+    /// its executor keeps the file's content in step with the model; C19's does not).
+    pub static FILE_IMAGES: std::cell::Cell<bool> = const { std::cell::Cell::new(false) };
+}
+
 /// One renderer setter call. `raster_safe`: restrict to options for which
 /// raster rendering is defined (valid colours, parseable images, fit > 0).
 pub fn gen_rsetter(rng: &mut Rng, is_img: bool, raster_safe: bool, allow_panicky: bool) -> RSetter {
@@ -172,7 +178,9 @@ pub fn gen_rsetter(rng: &mut Rng, is_img: bool, raster_safe: bool, allow_panicky
         3 => RSetter::Shape(gen_shape(rng, allow_panicky)),
         4 => RSetter::ShapeColor(gen_shape(rng, allow_panicky), gen_color(rng, raster_safe)),
         5 => RSetter::Image(if raster_safe {
-            if rng.chance(1, 2) {
+            if is_img && FILE_IMAGES.with(|f| f.get()) && rng.chance(2, 5) {
+                ImageSpec::File(rng.below(3) as u8)
+            } else if rng.chance(1, 2) {
                 ImageSpec::Png
             } else {
                 ImageSpec::Svg
